@@ -111,6 +111,7 @@ type TermCtx struct {
 	False *Term
 	vars  map[string]*Term
 	ai    map[int32]*ainfo
+	rsign map[int32]bool
 }
 
 func NewTermCtx() *TermCtx {
@@ -767,6 +768,14 @@ func (c *TermCtx) Resize(a *Term, w int, signed bool) *Term {
 func (c *TermCtx) Eq(a, b *Term) *Term {
 	if a == b {
 		return c.True
+	}
+	if a.sort.K == KInt && b.sort.K == KReal {
+		a = c.ToReal(a)
+	} else if a.sort.K == KReal && b.sort.K == KInt {
+		b = c.ToReal(b)
+	}
+	if a.op == OpRConst && b.op == OpRConst {
+		return c.Bool(a.rat.Cmp(b.rat) == 0)
 	}
 	if a.sort != b.sort {
 		panic(fmt.Sprintf("Eq sort mismatch %v %v", a.sort, b.sort))
